@@ -115,6 +115,72 @@ pub fn run(t: &[String]) -> String {
             }
             format!("E {}", if out.is_empty() { "-".to_string() } else { out.join(" ") })
         }
+        // route_burst <n> <millis> <count> <hexctx> [<hexctx>...]
+        // Real ShardManager::new over temp directories with the event-id clock scripted to read <millis>
+        // for the next count+64 calls (then advancing): <count> STORE messages per context, all sent to
+        // get_shard(ctx) as the STORE handler does - more ids than one millisecond has sequence numbers
+        // when count > 4096.  Observation as for route_engine: per context the shard directories, the shard
+        // tags found in its ids, the count, and whether its ids are pairwise distinct.
+        "route_burst" => {
+            crate::probes::eventid::ensure_config();
+            let n: usize = t[1].parse().unwrap();
+            let millis: u64 = t[2].parse().unwrap();
+            let count: usize = t[3].parse().unwrap();
+            let ctxs: Vec<String> = t[4..].iter().map(|h| String::from_utf8(unhex(h)).expect("utf8")).collect();
+            let tmp = tempfile::tempdir().unwrap();
+            let base = tmp.path().join("cols");
+            let wal = tmp.path().join("wal");
+            let total = count * ctxs.len();
+            #[cfg(sneldb_verif)]
+            snel_db::verif_hooks::set_clock_script_ms(vec![millis; total + 64], true);
+            let rt = tokio::runtime::Builder::new_multi_thread().worker_threads(2).enable_all().build().unwrap();
+            let ok = rt.block_on(async {
+                let reg = snel_db::engine::schema::SchemaRegistry::new_with_path(tmp.path().join("schemas.bin")).expect("registry");
+                let registry = std::sync::Arc::new(tokio::sync::RwLock::new(reg));
+                let mgr = ShardManager::new(n, base.clone(), wal.clone()).await;
+                for i in 0..count {
+                    for ctx in &ctxs {
+                        let ev: snel_db::engine::core::Event = serde_json::from_value(serde_json::json!({
+                            "event_type": "t", "context_id": ctx, "timestamp": 1000 + i as u64, "payload": {}
+                        })).expect("event");
+                        let shard = mgr.get_shard(ctx);
+                        if shard.tx.send(ShardMessage::Store(ev, std::sync::Arc::clone(&registry))).await.is_err() { return false; }
+                    }
+                }
+                // the Shutdown message queues behind the STOREs of each shard; the WAL is flushed and closed then
+                let errs = mgr.shutdown_all().await;
+                if !errs.is_empty() { return false; }
+                for _ in 0..3000 {
+                    if wal_lines(&wal, n).iter().map(|v| v.len()).sum::<usize>() >= total { break; }
+                    tokio::time::sleep(std::time::Duration::from_millis(10)).await;
+                }
+                true
+            });
+            drop(rt);
+            #[cfg(sneldb_verif)]
+            snel_db::verif_hooks::set_clock_script_ms(vec![], false);
+            if !ok { return "ENGINE_ERROR".into(); }
+            let mut seen: std::collections::BTreeMap<String, (std::collections::BTreeSet<usize>, std::collections::BTreeSet<u64>, usize, std::collections::BTreeSet<u64>)> = Default::default();
+            for (sid, lines) in wal_lines(&wal, n).iter().enumerate() {
+                for l in lines {
+                    let v: serde_json::Value = match serde_json::from_str(l) { Ok(v) => v, Err(_) => return "BAD_WAL_LINE".into() };
+                    let ctx = v["context_id"].as_str().unwrap_or("").to_string();
+                    let id = v["event_id"].as_u64().unwrap_or(0);
+                    let e = seen.entry(ctx).or_default();
+                    e.0.insert(sid);
+                    e.1.insert((id >> 12) & 1023);
+                    e.2 += 1;
+                    e.3.insert(id);
+                }
+            }
+            let mut out = Vec::new();
+            for (ctx, (dirs, tags, cnt, ids)) in seen {
+                let d: Vec<String> = dirs.iter().map(|x| x.to_string()).collect();
+                let g: Vec<String> = tags.iter().map(|x| x.to_string()).collect();
+                out.push(format!("{}={}/{}/{}/{}", crate::probes::hexs(ctx.as_bytes()), d.join("+"), g.join("+"), cnt, if ids.len() == cnt { "distinct" } else { "dup" }));
+            }
+            format!("B {}", if out.is_empty() { "-".to_string() } else { out.join(" ") })
+        }
         _ => "UNKNOWN_PROBE".into(),
     }
 }
